@@ -46,6 +46,7 @@ struct Options {
   unsigned maxDepth = 200000;
   unsigned maxAlts = 2048;
   unsigned maxEnum = 64;
+  uint64_t pathLimit = 30000000;   // instructions along one path before the path is reported as (probably) not terminating
   bool verbose = false;
   bool checkNsw = true;
   bool noMerge = false;
@@ -57,7 +58,7 @@ struct Options {
 } opt;
 
 struct Stats {
-  uint64_t instrs = 0, forks = 0, merges = 0, deadPaths = 0, checksConst = 0, checksSolver = 0, calls = 0, maxDepth = 0;
+  uint64_t maxPath = 0, instrs = 0, forks = 0, merges = 0, deadPaths = 0, checksConst = 0, checksSolver = 0, calls = 0, maxDepth = 0;
   uint64_t feasPure = 0; uint64_t allocs = 0, objMerges = 0, taintChecks = 0, loads = 0, stores = 0, infeasiblePruned = 0, midForks = 0;
   std::set<std::string> functions;
   std::map<std::string, uint64_t> checkKinds;
@@ -93,7 +94,7 @@ template <class T> struct Registered {
   ~Registered() { unlink(); }
 };
 struct State : Registered<State> {
-  Node* pc = nullptr; PMap mem; bool allowThrow = false;
+  Node* pc = nullptr; PMap mem; bool allowThrow = false; uint64_t steps = 0;   // steps: instructions executed along the longest path this state stands for
 };
 struct Frame : Registered<Frame> {
   FuncInfo* fi = nullptr; std::vector<vs::Value> regs; std::vector<uint32_t> allocas;
